@@ -181,6 +181,25 @@ def build(tier):
             P('conserved_D', D, S.rho0 * W * sg, 'conserved_D == rho0 W sqrt(gamma)',
               get=lambda r: r['conserved_D'])
             P('conserved_E', rel['conserved_E'][0, 0, 0], S.rho0 * W * sg * S.eps, 'conserved_E == D eps')
+            # angular momentum density J_i = eps_ijk x^j S^k with free coordinate values
+            xs = [sym('cx'), sym('cy'), sym('cz')]
+            cc = np.empty((3, 1, 1, 1), dtype=object)
+            for i_ in range(3):
+                cc[i_, 0, 0, 0] = xs[i_]
+            rel.fd.cartesian_coords = cc
+            Jd, Ju = rel['angmomdown3_n'], rel['angmomup3_n']
+            Sup = [E * v_up[i_] for i_ in range(3)]
+            Jw = []
+            for i_ in range(3):
+                tot = 0
+                for j_ in range(3):
+                    for k_ in range(3):
+                        if len({i_, j_, k_}) == 3:
+                            tot = tot + oracle.perm_sign((i_, j_, k_)) * sg * xs[j_] * Sup[k_]
+                Jw.append(tot)
+            for i_ in range(3):
+                P(f'angmomdown3_n[{i_}]', Jd[i_, 0, 0, 0], Jw[i_], 'angmomdown3_n == sqrt(gamma) [ijk] x^j S^k')
+                P(f'angmomup3_n[{i_}]', Ju[i_, 0, 0, 0], sum(gi3[i_, j_] * Jw[j_] for j_ in range(3)), 'angmomup3_n == raise(J_i)')
         blocks.append(dict(name='fluid', setup=S, run=S.run, obs=obs, ctx=c,
                            samplers=[S.sampler(), sampler_moving(S)]))
 
@@ -260,7 +279,7 @@ def build(tier):
 def main(report, tier, seed, workers, calibrate=False):
     report.bounds = dict(grid='1x1x1 (pointwise algebra; no derivative on these paths)',
                          input_patterns=['rho0, eps, press, W, v^i', 'Tdown4 given directly'],
-                         outside=['angular momentum densities (coordinate dependent)', 'float round-off'])
+                         outside=['float round-off'])
     report.assumptions += ['lapse > 0, metric positive definite, W > 0 and W^2 (1 - v_i v^i) = 1, rho0 >= 0',
                            'enthalpy / conserved_S obligations additionally assume rho0 > 0',
                            'floats are reals']
